@@ -27,6 +27,8 @@ type caseIn struct {
 	Seed   uint64 `json:"seed"`
 	Engine int    `json:"engine"`
 	Reps   int    `json:"reps"`
+	N      int    `json:"n,omitempty"` // large-registry histories: names
+	G      int    `json:"g,omitempty"` // large-registry histories: clients
 }
 
 type caseOut struct {
@@ -60,6 +62,8 @@ func child(mode string, in json.RawMessage) any {
 	out := &caseOut{Ops: map[string]int{}, Porc: map[string]int{}, PointHits: make([]int, nPoints+1)}
 	r := core.NewRng(int64(ci.Seed), 10)
 	switch mode {
+	case "big":
+		return runBig(ci, mode)
 	case "seq":
 		s := genSeq(r, ci.Engine)
 		run := replaySeq(s)
@@ -210,13 +214,30 @@ func run(c *core.Ctx) int {
 	concCases := mk(c.N(1500, 30000), c.N(2, 3)) // 3 000 / 90 000 histories
 	raceCases := mk(c.N(600, 15000), 1)
 
+	mkBig := func(n int, conc bool) []json.RawMessage {
+		var cs []json.RawMessage
+		for i := 0; i < n; i++ {
+			g := 1
+			if conc || i%4 == 3 {
+				g = 2 + rng.Intn(3)
+			}
+			cs = append(cs, core.J(caseIn{Seed: rng.U64(), Engine: i % 2, N: pickBigN(rng), G: g}))
+		}
+		return cs
+	}
+	bigCases := mkBig(c.N(160, 2400), false)
+	bigRaceCases := mkBig(c.N(12, 160), true)
+	bigRes := core.RunCases(c, "big", bigCases, core.ChildOpts{Batch: 5, TimeoutS: 900})
+	c.Extra("phase_big_s", time.Since(c.Start).Seconds())
 	seqRes := core.RunCases(c, "seq", seqCases, core.ChildOpts{Batch: 100, TimeoutS: 600})
 	c.Extra("phase_seq_s", time.Since(c.Start).Seconds())
 	concRes := core.RunCases(c, "conc", concCases, core.ChildOpts{Batch: 40, TimeoutS: 900})
 	c.Extra("phase_conc_s", time.Since(c.Start).Seconds())
-	var raceRes []core.CaseResult
+	var raceRes, bigRaceRes []core.CaseResult
 	if bin := os.Getenv("VCHECK_RACE_BIN"); bin != "" {
 		raceRes = core.RunCases(c, "race", raceCases, core.ChildOpts{Bin: bin, Batch: 20, TimeoutS: 900, Procs: 4,
+			Env: []string{"GORACE=halt_on_error=0 exitcode=0"}})
+		bigRaceRes = core.RunCases(c, "big", bigRaceCases, core.ChildOpts{Bin: bin, Batch: 2, TimeoutS: 900, Procs: 4,
 			Env: []string{"GORACE=halt_on_error=0 exitcode=0"}})
 	} else {
 		c.Inconclusive("race-binary-missing")
@@ -268,6 +289,10 @@ func run(c *core.Ctx) int {
 			c.Count("operations_"+mode, int64(o.NOps))
 			c.Count("modules_instantiated", int64(o.Modules))
 			for k, n := range o.Ops {
+				if strings.HasPrefix(k, "bigN:") {
+					c.Distinct("big_registry_sizes", strings.TrimPrefix(k, "bigN:"))
+					continue
+				}
 				if strings.HasPrefix(k, "othererr:") {
 					c.Distinct("errors_other_than_name_in_use_or_closed", strings.TrimPrefix(k, "othererr:"))
 					continue
@@ -281,7 +306,7 @@ func run(c *core.Ctx) int {
 			for k, n := range o.Porc {
 				c.Count("verdict:"+k, int64(n))
 				switch {
-				case k == "linearizable" || strings.HasPrefix(k, "illegal") || strings.HasPrefix(k, "seq-"):
+				case k == "linearizable" || strings.HasPrefix(k, "illegal") || strings.HasPrefix(k, "seq-") || strings.HasPrefix(k, "big-"):
 					evals += int64(n)
 				case k == "unknown":
 					for i := 0; i < n; i++ {
@@ -318,6 +343,8 @@ func run(c *core.Ctx) int {
 			}
 		}
 	}
+	handle("big", bigCases, bigRes)
+	handle("big-race", bigRaceCases, bigRaceRes)
 	handle("seq", seqCases, seqRes)
 	handle("conc", concCases, concRes)
 	handle("race", raceCases, raceRes)
@@ -349,6 +376,7 @@ func run(c *core.Ctx) int {
 	c.Assume("an instantiate error other than name-in-use is accepted exactly where the model allows 'runtime closed'")
 	c.Assume("CompileModule / InstantiateWithConfig use a binary unique within the history, so shared compiled-code entries of identical binaries (C12) are out of scope")
 	c.Assume("race flavour: no logical clock, no shared counters in the hook handler (would order the clients); linearizability is decided in the plain flavour only")
+	c.Assume("large-registry histories: every client works on names of its own, so its observations of them are decided by its own operations (no porcupine needed); the reference knows nothing of map capacities")
 	c.Assume("file close counts are checked in the sequential phase only (WASI guest opening a file of a counting fs.FS mount in _start)")
 	code := c.Finish(evals, int64(c.DistinctN("event_orders")),
 		"evaluation = one history decided (porcupine verdict on a stamped concurrent history, sequential script compared with the model step by step, or a race-flavour history with its quiescence checks); distinct = distinct orders of call/return events by client over the stamped concurrent histories (3-8 clients x 3-6 operations)")
@@ -437,6 +465,9 @@ func replay(c *core.Ctx, path string) int {
 	mode := w.Witness.Mode
 	if mode == "race" {
 		mode = "conc"
+	}
+	if mode == "big-race" {
+		mode = "big"
 	}
 	seen := map[string]int{}
 	for i := 0; i < 20; i++ {
